@@ -38,7 +38,7 @@ def consts(thorough):
         exits = {e for e in exits if e % 2 == 1 and e < 3000}
         tos = {0, 1, 7, 201, 2001}
     return {"Kinds": {"child", "nonchild", "never"}, "Exits": exits | {0, NEVER},
-            "Timeouts": tos | {NONE, NEG}, "Statuses": {"exit0", "exit7", "sigkill", "sigterm"},
+            "Timeouts": tos | {NONE, NEG}, "Statuses": {"exit0", "exit7", "sigkill", "sigterm", "sigrt35"},
             "Cap": CAP, "MaxT": 6000}
 
 
@@ -49,12 +49,14 @@ def status_words():
     """Wait-status words of real children (calibration of the encodings)."""
     if not _STATUS:
         import signal
-        for name, how in (("exit0", 0), ("exit7", 7), ("sigkill", signal.SIGKILL), ("sigterm", signal.SIGTERM)):
+        for name, how in (("exit0", 0), ("exit7", 7), ("sigkill", signal.SIGKILL), ("sigterm", signal.SIGTERM),
+                          ("sigrt35", 35)):
             pid = os.fork()
             if pid == 0:
                 if name.startswith("exit"):
                     os._exit(how)
-                signal.signal(how, signal.SIG_DFL) if how != signal.SIGKILL else None
+                if how != signal.SIGKILL:
+                    signal.signal(how, signal.SIG_DFL)
                 os.kill(os.getpid(), how)
                 os._exit(99)
             _, st = os.waitpid(pid, 0)
@@ -147,7 +149,7 @@ def run_wait(cases):
             againsys = (len(w.log) - n1) + (len(w.sleep_log) - s1)
         badkill = [(kp, ks) for (kp, ks, _) in w.kill_log if kp <= 0 or ks != 0]
         del w.kill_log[:]
-        codes = {"exit0": 0, "exit7": 7, "sigkill": -9, "sigterm": -15}
+        codes = {"exit0": 0, "exit7": 7, "sigkill": -9, "sigterm": -15, "sigrt35": -35}
         rec = {"kind": cfg["kind"], "exitAt": -1 if cfg["exitAt"] == NEVER else cfg["exitAt"] * U,
                "timeout": -1 if to == NONE else (-2 if to == NEG else to * U),
                "expcode": codes[cfg["status"]], "out": got["kind"] if got["kind"] in ("none", "value", "TimeoutExpired", "ValueError") else "other",
@@ -173,7 +175,7 @@ def run_wait_procs(job):
     w, ps = template()
     rnd = random.Random(seed)
     sw = status_words()
-    codes = {"exit0": 0, "exit7": 7, "sigkill": -9, "sigterm": -15}
+    codes = {"exit0": 0, "exit7": 7, "sigkill": -9, "sigterm": -15, "sigrt35": -35}
     lines = []
     for r in range(n):
         for p in list(w.procs):
